@@ -134,33 +134,61 @@ fn c16_belief_depth0() {
     kani::cover!(true, "COVER:reach");
 }
 
-/// Depth 1: BELIEF / BELIEF SLOT inside NOT, OPTIONAL, UNION — alone in the
-/// group, and as the second pattern of a group that is itself the second
-/// pattern of the block.
+/// Depth 1: the pattern inside NOT, OPTIONAL, UNION, alone in the group. Over
+/// the three group kinds the pattern alternates BELIEF / BELIEF SLOT / BELIEF
+/// (`parity` 0) or the complementary assignment (`parity` 1) — together all six
+/// (group kind, pattern) cells.
+fn depth1(parity: usize) {
+    let mut w = 0;
+    while w < 3 {
+        assert!(rejected_in(w, belief((w + parity) % 2)), "OBL:C16.belief.rejected");
+        w += 1;
+    }
+}
+
 #[kani::proof]
 #[kani::unwind(4)]
 #[kani::stub(alloc::fmt::format, stub_format)]
-fn c16_belief_depth1() {
-    let mut w = 0;
-    while w < 3 {
-        assert!(rejected_in(w, belief(0)), "OBL:C16.belief.rejected");
-        assert!(rejected_in(w, belief(1)), "OBL:C16.belief.rejected");
-        w += 1;
-    }
+fn c16_belief_depth1_even() {
+    depth1(0);
+    // second pattern of a group that is itself the second pattern of the block
     assert!(rejected_in_second(2, belief(1)), "OBL:C16.belief.rejected");
     kani::cover!(!rejected_in(1, ordinary()), "COVER:ordinary_accepted");
     kani::cover!(true, "COVER:reach");
 }
 
-/// Depth 2: every pair of group kinds (3 x 3); the pattern alternates between
-/// BELIEF and BELIEF SLOT over the nine pairs (`parity` 0), the complementary
-/// assignment is `parity` 1 — together all 18 cells.
-fn depth2(parity: usize) {
+/// The other three (group kind, pattern) cells of depth 1 (thorough tier).
+#[kani::proof]
+#[kani::unwind(4)]
+#[kani::stub(alloc::fmt::format, stub_format)]
+fn c16_belief_depth1_odd() {
+    depth1(1);
+    assert!(rejected_in_second(0, belief(0)), "OBL:C16.belief.rejected");
+    kani::cover!(true, "COVER:reach");
+}
+
+/// Depth 2, quick tier: four of the nine group nestings — NOT{OPTIONAL},
+/// OPTIONAL{UNION}, UNION{NOT}, UNION{UNION} — alternating BELIEF / BELIEF SLOT.
+#[kani::proof]
+#[kani::unwind(4)]
+#[kani::stub(alloc::fmt::format, stub_format)]
+fn c16_belief_depth2_sample() {
+    assert!(rejected_in2(0, 1, belief(0)), "OBL:C16.belief.rejected");
+    assert!(rejected_in2(1, 2, belief(1)), "OBL:C16.belief.rejected");
+    assert!(rejected_in2(2, 0, belief(0)), "OBL:C16.belief.rejected");
+    assert!(rejected_in2(2, 2, belief(1)), "OBL:C16.belief.rejected");
+    kani::cover!(!rejected_in2(2, 1, ordinary()), "COVER:ordinary_accepted");
+    kani::cover!(true, "COVER:reach");
+}
+
+/// Depth 2, thorough tier: every pair of group kinds (3 x 3) around BELIEF
+/// (`form` 0) and around BELIEF SLOT (`form` 1) — all 18 cells.
+fn depth2(form: usize) {
     let mut w1 = 0;
     while w1 < 3 {
         let mut w2 = 0;
         while w2 < 3 {
-            assert!(rejected_in2(w1, w2, belief((w1 + w2 + parity) % 2)), "OBL:C16.belief.rejected");
+            assert!(rejected_in2(w1, w2, belief(form)), "OBL:C16.belief.rejected");
             w2 += 1;
         }
         w1 += 1;
@@ -170,17 +198,15 @@ fn depth2(parity: usize) {
 #[kani::proof]
 #[kani::unwind(4)]
 #[kani::stub(alloc::fmt::format, stub_format)]
-fn c16_belief_depth2() {
+fn c16_belief_depth2_all_belief() {
     depth2(0);
-    kani::cover!(!rejected_in2(2, 1, ordinary()), "COVER:ordinary_accepted");
     kani::cover!(true, "COVER:reach");
 }
 
-/// The other nine (group pair, pattern) cells of depth 2 (thorough tier).
 #[kani::proof]
 #[kani::unwind(4)]
 #[kani::stub(alloc::fmt::format, stub_format)]
-fn c16_belief_depth2_complement() {
+fn c16_belief_depth2_all_slot() {
     depth2(1);
     kani::cover!(true, "COVER:reach");
 }
